@@ -65,8 +65,11 @@ def gen_ast(rng):
     tail = None
     if rng.random() < 0.12:
         tail = {"tag": t(), "arg": rng.choice(["%off", "%i"])}  # an op behind the last barrier: not the recognised shape
+    post = None
+    if rng.random() < 0.12:
+        post = {"tag": t(), "src": f"%t{rng.randrange(ntmp)}"}  # a temporary of the loop is read once more behind the loop
     ring = rng.choice([0, 0, 0, 3, 4])  # the side output goes to a ring of `ring` slots: an arith.remui among the index ops
-    return {"nst": nst, "tmps": ntmp, "skip": skip is not None, "tail": tail, "ring": ring, "const_bounds": rng.random() < 0.75, "stages": stages}
+    return {"nst": nst, "tmps": ntmp, "skip": skip is not None, "tail": tail, "ring": ring, "post": post, "const_bounds": rng.random() < 0.75, "stages": stages}
 
 
 def op_text(o):
@@ -88,7 +91,7 @@ def emit(ast, env=None) -> str:
     L = []
     e = L.append
     e("builtin.module {")
-    e(f"  func.func @f(%A : {BIG}, %O : {BIG}, %O2 : {BIG}, %G : {T1}, %lba : index, %uba : index, %sta : index) {{")
+    e(f"  func.func @f(%A : {BIG}, %O : {BIG}, %O2 : {BIG}, %G : {T1}, %P : {T1}, %lba : index, %uba : index, %sta : index) {{")
     e(f"    %cE = arith.constant {E} : index")
     if ast.get("ring"):
         e(f'    %cR = arith.constant {ast["ring"]} : index')
@@ -124,6 +127,8 @@ def emit(ast, env=None) -> str:
     if ast.get("tail"):
         e(f'      "test.op"({ast["tail"]["arg"]}) {{vtag = {ast["tail"]["tag"]} : i64}} : (index) -> ()')
     e("    }")
+    if ast.get("post"):
+        e(f'    "memref.copy"({ast["post"]["src"]}, %P) {{vtag = {ast["post"]["tag"]} : i64}} : ({T1}, {T1}) -> ()')
     e("    func.return")
     e("  }")
     e("}")
@@ -155,6 +160,8 @@ def shrink_ast(ast):
         yield dict(ast, ring=0)
     if ast.get("tail"):
         yield dict(ast, tail=None)
+    if ast.get("post"):
+        yield dict(ast, post=None)
     for s_, ops_ in enumerate(ast["stages"]):
         for j_, o_ in enumerate(ops_):
             if o_.get("scalar"):
